@@ -2,7 +2,7 @@ import PEval.Driver.Util
 import PEval.Model.Sensing
 /-! Driver handler for C12 (sensing: crop, classification, non-detection).
 
-A cloud is a JSON array of rows `[x, y, z]` (rationals as strings); the tag of a row is its position.
+A cloud is a JSON array of rows `[x, y, z]` (rationals as strings) or `[x, y, z, tag]`; by default the tag of a row is its position.
 An area is an array of corners `[x, y, z]`. Results name rows by tag. -/
 open Lean
 
@@ -12,6 +12,8 @@ open PEval.Sensing
 def asRow (tag : Nat) (j : Json) : Except String Pt := do
   let a ← j.getArr?
   if a.size < 3 then throw "row needs 3 entries"
+  -- an optional 4th entry names the row (a natural number); by default the tag is the position
+  let tag := if a.size > 3 then (a[3]!.getNat?.toOption.getD tag) else tag
   pure ⟨← asRat a[0]!, ← asRat a[1]!, ← asRat a[2]!, tag⟩
 
 def asCloud (j : Json) : Except String (List Pt) := do
